@@ -168,10 +168,11 @@ func (e *c19Env) newWorld(ttl2 bool) (*c19World, error) {
 	for i, cli := range e.foreign {
 		w.foreign = append(w.foreign, metadata.NewPartitionLeaseManager(cli, metadata.PartitionLeaseConfig{BrokerID: fmt.Sprintf("%d", i+2), LeaseTTLSeconds: 30, Logger: c19Quiet}))
 	}
-	// NOTE: a partition beyond the range of an EXISTING topic is deliberately not generated:
+	// NOTE: a partition beyond the range of an EXISTING topic (also of a topic auto-created by
+	// an earlier request) is deliberately not generated:
 	// with topic auto-creation on, getPartitionLog loops forever on it (NextOffset says
 	// unknown, ensureTopic says "exists", retry) - an incidental defect outside C19.
-	w.universe = []c19Part{{"t1", 0}, {"t1", 1}, {"t1", 2}, {"t2", 0}, {"t2", 1}, {"u-unknown", 0}, {"u-unknown", 2}}
+	w.universe = []c19Part{{"t1", 0}, {"t1", 1}, {"t1", 2}, {"t2", 0}, {"t2", 1}, {"u-unknown", 0}, {"v-unknown", 0}}
 	w.obj.OnOp = func(op vfkit.ObjOp) {
 		if op.Kind != "put-segment" {
 			return
@@ -271,7 +272,7 @@ func (w *c19World) produce(parts []c19Part, acks int16, midExpire bool, foreignT
 	state := map[c19Part]string{}
 	for _, p := range parts {
 		switch v := vals[p.String()]; {
-		case p.Topic == "u-unknown":
+		case strings.HasSuffix(p.Topic, "-unknown"):
 			state[p] = "unknown"
 			if v != "" && v != "1" {
 				state[p] = "foreign"
